@@ -44,6 +44,15 @@ for _pid, _txt in (
                     "checked exhaustively against the same clauses (and the pinned variant is refuted), and the code is shown to follow the model on "
                     "model-generated histories.", RUNTB, "5 run/cache family")
 
+CHECKS["C03"] = ("TaskGraph", "TLC model check of the closure + Kahn model over every configuration (initial states) incl. termination; every "
+                 "dependency function x request list executed for real (repeated for map order) and judged by a TLC relation",
+                 "TaskGraph.tla is checked for every configuration over 3 names plus an undefined name (definitions once/twice/missing, every "
+                 "dependency function incl. self loops and cycles, every request list up to length 2): once-each, dependencies-first in every state, "
+                 "error-iff-anomaly, error-runs-nothing, termination. The real SpokFile.Run is executed on every dependency function over 3 (quick) / "
+                 "4 (thorough) names x request lists, plus duplicate/missing definitions, failing commands, warm-cache second runs and sampled "
+                 "5-8 task graphs, each repeated so the map order inside the sort varies; TLC evaluates Allowed_C03 on every record.",
+                 TB + "map-iteration order sampled by repetition; commands replaced by a recording runner.", "5 C03")
+
 NOT_YET = {}
 
 
